@@ -312,6 +312,11 @@ func (g *fgen) applyContract(fc *funcContract, callee *ssa.Function, recv *val, 
 		g.havocAll(st)
 		g.assum["contract "+ckey+" has no modifies clause and no body (havoc all)"] = true
 	}
+	for _, name := range fc.ghostWrites {
+		if k, gv := g.ghostKey(name); gv != nil {
+			g.havocKey(st, k)
+		}
+	}
 	// results
 	rs := g.freshResults(sig, "c", st)
 	if len(fc.results) != len(rs) {
@@ -330,6 +335,13 @@ func (g *fgen) applyContract(fc *funcContract, callee *ssa.Function, recv *val, 
 		post.vars[r.name] = rs[i]
 	}
 	for _, c := range fc.ensures {
+		t, err := post.safeBool(c)
+		if err != nil {
+			panic(transErr(err.Error()))
+		}
+		g.fact(g.curGuard, t)
+	}
+	for _, c := range fc.defines {
 		t, err := post.safeBool(c)
 		if err != nil {
 			panic(transErr(err.Error()))
